@@ -17,7 +17,8 @@ import time
 import warnings
 
 KB = 1000
-SIZES = {"A": 5 * KB, "B": 4 * KB, "C": 3 * KB, "D": 2500, "E": 3500, "F": 1500}
+SIZES = {"A": 5 * KB, "B": 4 * KB, "C": 3 * KB, "D": 2500, "E": 3500, "F": 1500,
+         "G": 1200, "H": 1300, "I": 1400, "J": 1100, "K": 1600, "L": 1700}
 PREFIX, POSTFIX = "cachefile_", "_cachefile"
 CONFIG = "file_cache_config.json"
 
